@@ -124,9 +124,10 @@ def walkRedirect (c : TCase) (which : String) : RdSt :=
          let ls := headLines (unhex o)
          let names := (ls.drop 1).map lineName
          -- C13: credentials and stale framing
-         let inheritedCookie := names.contains "cookie" && !s.addedNames.contains "cookie"
-         let inheritedCL := names.contains "content-length" && !s.addedNames.contains "content-length"
-         let inheritedAuth := names.contains "authorization" && !s.addedNames.contains "authorization"
+         -- lines of that name beyond those the caller added to this very flow come from the previous request
+         let inheritedCookie := names.count "cookie" > s.addedNames.count "cookie"
+         let inheritedCL := names.count "content-length" > s.addedNames.count "content-length"
+         let inheritedAuth := names.count "authorization" > s.addedNames.count "authorization"
          if (which == "C13" || which == "all") && inheritedCookie then { s with fail := some s!"the request created for the redirect carries the previous request's Cookie header" }
          else if (which == "C13" || which == "all") && inheritedCL then { s with fail := some s!"the request created for the redirect carries the previous request's Content-Length header" }
          else if (which == "C13" || which == "all") && inheritedAuth && !s.keepAuthOk then
